@@ -397,6 +397,8 @@ def run_schedule(gi, size, plan, gran):
     prefix = os.path.join(core.REPO, "cvss") + os.sep
     ex = sched.Execution(bodies, plan, gran, prefix)
     got = ex.run()
+    if ex.stuck():
+        return ex.stuck(), ex
     if got != _SEQ[(gi, size)]:
         for t, (g, w) in enumerate(zip(got, _SEQ[(gi, size)])):
             if g != w:
@@ -497,6 +499,9 @@ COLD_GROUPS = [
     ("cold: v3.0 and v3.1, same body", "new", [("CVSS3", V30), ("CVSS3", V31)], [(1, "line", 1)]),
     ("cold: same v2 vector in both threads", "new", [("CVSS2", V2B), ("CVSS2", V2B)], [(1, "line", 1), (2, "call", 1)]),
     ("cold: same text in both threads", "new", [("TEXT", TEXT), ("TEXT", TEXT)], [(1, "line", 2)]),
+    ("cold: same v4 vector in three threads", "new", [("CVSS4", V4B), ("CVSS4", V4B), ("CVSS4", V4B)], [(1, "line", 1)]),
+    ("cold: same v3 vector in three threads", "new", [("CVSS3", V31), ("CVSS3", V31), ("CVSS3", V31)], [(1, "line", 1)]),
+    ("cold: same v2 vector in three threads", "new", [("CVSS2", V2B), ("CVSS2", V2B), ("CVSS2", V2B)], [(1, "line", 1)]),
     ("shared CVSS2 object, small accessor set", "shared", ("CVSS2", V2B, "small"), [(1, "line", 1), (2, "line", 1)]),
     ("shared CVSS3 object, small accessor set", "shared", ("CVSS3", V31, "small"), [(1, "line", 1), (2, "line", 1)]),
     ("shared CVSS4 object, small accessor set", "shared", ("CVSS4", V4B, "small"), [(1, "line", 1), (2, "line", 1)]),
@@ -521,7 +526,7 @@ def cold_bodies(gi):
 
 def cold_alone(gi):
     """Each body alone, each in a cold process (for shared groups: on a fresh object)."""
-    n = 3 if COLD_GROUPS[gi][1] == "shared" else 2
+    n = 3 if COLD_GROUPS[gi][1] == "shared" else len(COLD_GROUPS[gi][2])
     out = []
     for t in range(n):
         out.append(in_fork(lambda t=t: ["ok", cold_bodies(gi)[t]()]))
@@ -530,7 +535,8 @@ def cold_alone(gi):
 
 def cold_points(gi, gran):
     prefix = os.path.join(core.REPO, "cvss") + os.sep
-    return in_fork(lambda: sched.count_points(cold_bodies(gi)[:2], gran, prefix))
+    n = 2 if COLD_GROUPS[gi][1] == "shared" else len(COLD_GROUPS[gi][2])
+    return in_fork(lambda: sched.count_points(cold_bodies(gi)[:n], gran, prefix))
 
 
 def cold_run(gi, plan, gran):
@@ -539,7 +545,7 @@ def cold_run(gi, plan, gran):
     def go():
         ex = sched.Execution(cold_bodies(gi), plan, gran, prefix)
         res = ex.run()
-        return [[list(r) for r in res], ex.points]
+        return [[list(r) for r in res], ex.points, ex.stuck()]
     return in_fork(go)
 
 
@@ -555,7 +561,9 @@ def _cold_plans(gi, bound, gran, stride):
 
 
 def cold_judge(gi, plan, gran, alone):
-    res, points = cold_run(gi, plan, gran)
+    res, points, stuck = cold_run(gi, plan, gran)
+    if stuck:
+        return stuck, points
     for t, (g, w) in enumerate(zip(res, alone)):
         if list(g) != list(w):
             return "thread %d observes %s, but %s when it runs alone" % (t, str(g)[:300], str(w)[:300]), points
@@ -592,6 +600,8 @@ def explore_cold_schedules(ctx, res):
                     stride = 3 if "CVSS4" in name else 2
                 elif "one macrovector" in name:
                     stride = 2
+                elif "three threads" in name:
+                    stride = 3
             plans, npts, alone = _cold_plans(gi, bound, gran, stride)
             summary["%s | bound %d, %s%s" % (name, bound, gran, "/%d" % stride if stride > 1 else "")] = {
                 "schedules": len(plans), "points_per_thread": npts}
